@@ -137,7 +137,11 @@ CLAIMED["C09"] = dict(
         "the harness runs 2D renders, voxel renders and meshes with no pool, the global pool and pools of 1..16 threads, sets the token "
         "before the run, after exactly k polls (counted inside the cancel-poll hook), in the middle of a task (at the k-th native call reported "
         "by the JIT's bulk-driver hook) or never, perturbs task starts through the "
-        "schedule-point hook, and evaluates one JIT tape from up to 16 threads; Trace_C09 applies the model's invariants to every run.",
+        "schedule-point hook, and evaluates one JIT tape from up to 16 threads; Trace_C09 applies the model's invariants to every run.  "
+        "OctreeMerge.tla (pre-split, local octrees, merge with index rebasing, fix-up) is exhausted by TLC and bound to the code by "
+        "Trace_OctreeMerge.tla: the mt_* hooks dump every task's local octree, the splits and the merged octree of real multi-threaded "
+        "builds, the model's own Merge applied to the recorded local octrees must give the recorded merged octree, every reachable index "
+        "must be in range, no placeholder reachable, and every live task position must denote its local octree.",
    note="interleavings are perturbed, not enumerated, on the real code; the verdict never depends on timing",
    technique="TLA+ design model (TLC exhaustive) + hook-driven cancellation / schedule perturbation on the real code + TLA+ trace validation",
    design_ref="DESIGN.md section 3 C09")
